@@ -3,6 +3,7 @@
 package parser
 
 import (
+	"github.com/verily-src/fhirpath-go/fhirpath/internal/expr"
 	"github.com/verily-src/fhirpath-go/fhirpath/internal/funcs"
 	"github.com/verily-src/fhirpath-go/fhirpath/system"
 	"github.com/verily-src/fhirpath-go/internal/verifrt"
@@ -26,5 +27,30 @@ func VerifHarness_C17_CustomFunctionArgumentCountIsCheckedAtCompile() {
 	n := verifrt.Choose("args", 4)
 	res := verifCompileCall(table, "probe", n, verifrt.Choose("place", 6), verifrt.NondetBool("dotted"))
 	verifrt.Assert((res.Error == nil && res.Result != nil) == (n == params), "custom-function-call-accepted-iff-argument-count-matches")
+	verifrt.Reach("end")
+}
+
+// C17: a variable is known by its name however the name is written - %x, %`x`, %'x', with the escapes of a string
+// literal decoded in the quoted form - and evaluates to exactly the supplied value; a name that was not supplied
+// compiles and is an evaluation error.
+func VerifHarness_C17_CompiledVariableNames() {
+	supplied := system.Integer(verifrt.NondetInt32("value"))
+	ctx := &expr.Context{ExternalConstants: map[string]any{"x": supplied, "a b": system.String("spaced")}}
+	forms := []struct {
+		written string
+		name    string
+	}{{"x", "x"}, {"`x`", "x"}, {"'x'", "x"}, {"'\\u0078'", "x"}, {"'a b'", "a b"}, {"`a b`", "a b"}, {"y", "y"}, {"`y`", "y"}, {"'X'", "X"}}
+	f := forms[verifrt.Choose("form", len(forms))]
+	res := (&FHIRPathVisitor{}).Visit(verifExternalConstant(f.written)).(*VisitResult)
+	verifrt.Assert(res.Error == nil && res.Result != nil, "variable-reference-compiles")
+	out, err := res.Result.Evaluate(ctx, system.Collection{})
+	switch f.name {
+	case "x":
+		verifrt.Assert(err == nil && len(out) == 1 && out[0] == supplied, "variable-evaluates-to-the-supplied-value")
+	case "a b":
+		verifrt.Assert(err == nil && len(out) == 1 && out[0] == system.String("spaced"), "variable-evaluates-to-the-supplied-value")
+	default:
+		verifrt.Assert(err != nil, "unknown-variable-is-an-evaluation-error")
+	}
 	verifrt.Reach("end")
 }
